@@ -403,6 +403,55 @@ static void c05_case(uint64_t idx)
 		c05_probe(&c, d, data.n, "bit-flip", off, true);
 	}
 	hx_count("bit_flips", data.n * 8);
+	// every single-bit flip of a CRC32-protected .xz field WITH the protecting CRC32 recomputed (damage that a
+	// checksum alone cannot see: the field has to be consistent with the rest of the file)
+	if (fmt == F_XZ) {
+		for (size_t fi = 0; fi < R0.nfields; ++fi) {
+			const rd_field *f = &R0.fields[fi];
+			int crc_kind; int first_kind;
+			if (f->kind == RDF_STREAM_FLAGS) { crc_kind = RDF_STREAM_HEADER_CRC; first_kind = RDF_STREAM_FLAGS; }
+			else if (f->kind == RDF_FOOTER_BACKWARD_SIZE || f->kind == RDF_FOOTER_FLAGS) { crc_kind = RDF_FOOTER_CRC; first_kind = RDF_FOOTER_BACKWARD_SIZE; }
+			else if (f->kind >= RDF_BLOCK_HEADER_SIZE && f->kind <= RDF_BLOCK_HEADER_PADDING) { crc_kind = RDF_BLOCK_HEADER_CRC; first_kind = RDF_BLOCK_HEADER_SIZE; }
+			else if (f->kind >= RDF_INDEX_INDICATOR && f->kind <= RDF_INDEX_PADDING) { crc_kind = RDF_INDEX_CRC; first_kind = RDF_INDEX_INDICATOR; }
+			else continue;
+			const rd_field *cf = NULL, *ff = NULL;
+			for (size_t k = 0; k < R0.nfields; ++k) {
+				const rd_field *q = &R0.fields[k];
+				if (q->stream != f->stream) continue;
+				bool blk = crc_kind == RDF_BLOCK_HEADER_CRC;
+				if (q->kind == crc_kind && (!blk || q->block == f->block)) cf = q;
+				if (q->kind == first_kind && (!blk || q->block == f->block) && ff == NULL) ff = q;
+			}
+			if (!cf || !ff || cf->len != 4 || f->len > 64) continue;
+			size_t from = ff->off, to = crc_kind == RDF_FOOTER_CRC ? ff->off + 6 : (crc_kind == RDF_STREAM_HEADER_CRC ? ff->off + 2 : cf->off);
+			if (to > data.n || from >= to) continue;
+			for (size_t off = f->off; off < f->off + f->len; ++off) for (unsigned bit = 0; bit < 8; ++bit) {
+				memcpy(d, data.p, data.n); d[off] ^= (uint8_t)(1u << bit);
+				uint32_t crc = lzma_crc32(d + from, to - from, 0);
+				for (int q = 0; q < 4; ++q) d[cf->off + (size_t)q] = (uint8_t)(crc >> (8 * q));
+				c05_probe(&c, d, data.n, "crc-consistent-flip", off, true);
+				hx_count("crc_consistent_flips", 1);
+			}
+		}
+	}
+	// the undamaged file on a handle whose first life ended inside a damaged (cut) copy of it
+	for (unsigned q = 0; q < 6 && data.n > 8; ++q) {
+		static const int dk[] = { D_STREAM_MT, D_STREAM, D_STREAM_MT, D_AUTO, D_STREAM_MT, D_LZIP };
+		int kind = dk[q];
+		if ((fmt == F_XZ) != (kind == D_STREAM_MT || kind == D_STREAM || kind == D_AUTO)) { if (!(fmt == F_LZ && (kind == D_LZIP || kind == D_AUTO))) continue; }
+		if (fmt == F_LZMA) continue;
+		dec_spec sp; memset(&sp, 0, sizeof(sp)); sp.kind = kind; sp.memlimit = UINT64_MAX; sp.memlimit_threading = UINT64_MAX; sp.threads = 2 + (q & 1);
+		sp.flags = LZMA_CONCATENATED;
+		size_t cut = 1 + (size_t)vrng_below64(&r, data.n - 1);
+		sp.warm_in = data.p; sp.warm_n = cut; sp.warm_exact = true;
+		lres L; run_lib(&sp, data.p, data.n, LZMA_FINISH, &L); hx_eval();
+		if (!lib_noverdict(&L) && (!lib_accepts(&L) || L.out.n != plain.n || (plain.n && memcmp(L.out.p, plain.p, plain.n)))) {
+			char key[160]; snprintf(key, sizeof(key), "intact-file-wrong-after-damaged-one|%s", d_names[kind]);
+			hx_violation("C05", key, idx, "a handle that first decoded the file cut at %zu (no lzma_end) then decodes the intact file to %zu bytes with %s (expected %zu bytes, LZMA_STREAM_END); base %s", cut, L.out.n, lzma_ret_name(L.ret), plain.n, desc);
+		}
+		lres_free(&L);
+		hx_count("intact_after_damaged_probes", 1);
+	}
 	// every truncation length
 	for (size_t len = 0; len < data.n; ++len) c05_probe(&c, data.p, len, "truncation", (size_t)-1, true);
 	hx_count("truncations", data.n);
@@ -473,12 +522,13 @@ static void c16_case(uint64_t idx)
 	if (vrng_chance(&r, 1, 2)) flags |= LZMA_CONCATENATED;
 	if (vrng_chance(&r, 1, 6)) flags |= LZMA_TELL_NO_CHECK;
 	if (vrng_chance(&r, 1, 6)) flags |= LZMA_TELL_UNSUPPORTED_CHECK;
+	if (vrng_chance(&r, 1, 6)) flags |= LZMA_TELL_ANY_CHECK;
 	if (vrng_chance(&r, 1, 8)) flags |= LZMA_IGNORE_CHECK;
 	lzma_action fin = vrng_chance(&r, 3, 4) ? LZMA_FINISH : LZMA_RUN;
 	hx_sample("c16 %s %s flags=0x%x fin=%d (%zu bytes)", desc, md, flags, (int)fin, data.n);
 	char key[220];
 	size_t lim = (1u << 20) + plain.n * 8;
-	bool tell = (flags & (LZMA_TELL_NO_CHECK | LZMA_TELL_UNSUPPORTED_CHECK)) != 0;
+	bool tell = (flags & (LZMA_TELL_NO_CHECK | LZMA_TELL_UNSUPPORTED_CHECK | LZMA_TELL_ANY_CHECK)) != 0;
 	// --- specific decoder vs refdec ---
 	int detected = rd_detect(data.p, data.n);
 	for (int pass = 0; pass < 2; ++pass) {
